@@ -138,6 +138,16 @@ def fam_E(tier):
     return _e_cases(trees, tier, "E")
 
 
+@family("E1")
+def fam_E1(tier):
+    """Reduced expression family for the differential / structural checks' quick tier."""
+    def trees():
+        for n in (0, 1):
+            yield from expr_trees(n, E_LEAVES)
+        yield from expr_trees(2, E_LEAVES_SMALL)
+    return _e_cases(trees, tier, "E1")
+
+
 # =============================================================================================
 # S: control flow statement trees with a trace variable
 # =============================================================================================
@@ -469,3 +479,188 @@ def fam_R(tier):
             for place in ("body", "block", "if", "nested"):
                 for pos in ("first", "middle"):
                     yield (r_case, kind, loop, place, pos)
+
+
+# =============================================================================================
+# O: store -> load context grid (optimiser: load-after-store forwarding, constant casts)
+#    cases carry source text directly; used differentially (C02) and by the IR checker (C14)
+# =============================================================================================
+O_TYPES = {
+    # name: (type text, expression over the parameters, second expression, param list entries)
+    "int": ("int", "a + 1", "a - 2"),
+    "float": ("float", "x * 2.0", "x + 0.5"),
+    "float4": ("float4", "w4 * 2.0", "w4 + w4"),
+    "float3": ("float3", "w3 * 2.0", "w3 + w3"),
+    "float3x3": ("float3x3", "m3 * 2.0", "m3 + m3"),
+    "P": ("P", "ps", "ps2"),
+    "int[3]": ("int[3]", "arr", "arr2"),
+}
+O_PARAMS = "int a, float x, float4 w4, float3 w3, float3x3 m3, P ps, P ps2, int[3] arr, int[3] arr2"
+O_ARGS = {"a": 2, "x": 1.5, "w4": [1.0, 2.0, 3.0, 4.0], "w3": [1.0, 2.0, 3.0], "m3": [[1.0, 2.0, 3.0], [4.0, 5.0, 6.0], [7.0, 8.0, 9.5]],
+          "ps": {"fa": 3, "hb": 1.5}, "ps2": {"fa": 4, "hb": 2.5}, "arr": [5, 6, 7], "arr2": [8, 9, 10]}
+
+# consumers: name -> (applicable types, statement template using {v} (the loaded variable), result expression, result type)
+O_CONSUMERS = [
+    ("ret", ("int", "float", "float4", "float3", "float3x3"), "", "{v}", None),
+    ("bin-lhs", ("int", "float"), "", "{v} + 1", None),
+    ("bin-rhs", ("int", "float"), "", "1 + {v}", None),
+    ("bin-both", ("int", "float"), "", "{v} * {v}", None),
+    ("cast", ("int",), "", "{v} + 0.5", "float"),
+    ("cmp", ("int", "float"), "", "{v} > 1", "int"),
+    ("if", ("int", "float"), "int res = 0; if ({v}) {{ res = 1; }} else {{ res = 2; }}", "res", "int"),
+    ("if-noelse", ("int",), "int res = 5; if ({v}) {{ res = 1; }}", "res", "int"),
+    ("store", ("int", "float", "float4", "float3x3"), "{T} res = {v};", "res", None),
+    ("assign", ("int", "float", "float4", "float3x3"), "{T} res; res = {v};", "res", None),
+    ("compound", ("int", "float"), "{v} += 3;", "{v}", None),
+    ("affix-pre", ("int", "float"), "++{v};", "{v}", None),
+    ("affix-post-operand", ("int",), "int res = {v}++ * 2;", "res + {v}", None),
+    ("call-arg0", ("int",), "", "g2({v}, 1)", None),
+    ("call-arg1", ("int",), "", "g2(1, {v})", None),
+    ("call-arg0f", ("float",), "", "g2({v}, 1.0)", None),
+    ("call-arg1f", ("float",), "", "g2(1.0, {v})", None),
+    ("call-arg-conv", ("int",), "", "gf1({v})", "float"),
+    ("call-vec", ("float4",), "", "gv({v})", "float"),
+    ("member-store", ("int",), "P s; s.fa = {v};", "s.fa", "int"),
+    ("array-store", ("int",), "int[3] la; la[1] = {v};", "la[1]", "int"),
+    ("array-index", ("int",), "int[3] la; la[0] = 7; la[1] = 8; la[2] = 9;", "la[{v} - {v}]", "int"),
+    ("vector-elem-store", ("float",), "float4 q4 = w4; q4[1] = {v};", "q4", "float4"),
+    ("matrix-row-store", ("float3",), "float3x3 q = m3; q[1] = {v};", "q", "float3x3"),
+    ("ctor-arg0", ("float",), "", "float4({v}, 1.0, 2.0, 3.0)", "float4"),
+    ("ctor-arg2", ("float",), "", "float4(1.0, 2.0, {v}, 3.0)", "float4"),
+    ("ctor-vec", ("float3",), "", "float4({v}, 1.0)", "float4"),
+    ("vec-bin-lhs", ("float4", "float3"), "", "{v} + {v}", None),
+    ("vec-scalar", ("float4", "float3"), "", "{v} * 2.0", None),
+    ("swizzle-read", ("float4", "float3"), "", "{v}.zy", "float2"),
+    ("swizzle-read1", ("float4",), "", "{v}.y + 1.0", "float"),
+    ("swizzle-write", ("float4", "float3"), "{v}.x = 9.0;", "{v}", None),
+    ("swizzle-write2", ("float4",), "{v}.zx = float2(8.0, 9.0);", "{v}", None),
+    ("vec-index-read", ("float4", "float3"), "", "{v}[1]", "float"),
+    ("vec-index-write", ("float4", "float3"), "{v}[2] = 7.0;", "{v}", None),
+    ("mat-scalar", ("float3x3",), "", "{v} * 2.0", None),
+    ("mat-add", ("float3x3",), "", "{v} + m3", None),
+    ("mat-mul", ("float3x3",), "", "{v} * m3", None),
+    ("mat-row-read", ("float3x3",), "", "{v}[1]", "float3"),
+    ("mat-elem-read", ("float3x3",), "", "{v}[1][2]", "float"),
+    ("mat-row-write", ("float3x3",), "{v}[1] = w3;", "{v}", None),
+    ("mat-elem-write", ("float3x3",), "{v}[2][0] = 5.0;", "{v}", None),
+    ("field-read", ("P",), "", "{v}.fa", "int"),
+    ("field-read-f", ("P",), "", "{v}.hb + 1.0", "float"),
+    ("field-write", ("P",), "{v}.fa = 9;", "{v}.fa + 1", "int"),
+    ("struct-store", ("P",), "", "gp({v})", "int"),
+    ("elem-read", ("int[3]",), "", "{v}[1]", "int"),
+    ("elem-read-dyn", ("int[3]",), "", "{v}[a]", "int"),
+    ("elem-write", ("int[3]",), "{v}[1] = 9;", "{v}[1] + {v}[0]", "int"),
+    ("array-arg", ("int[3]",), "", "ga({v})", "int"),
+]
+
+O_HELPERS = """struct P
+{
+    int fa;
+    float hb;
+}
+function g2(int p, int q) -> int { return p * 10 + q; }
+function g2(float p, float q) -> float { return p * 10.0 + q; }
+function gv(float4 p) -> float { return p[0] + p[3]; }
+function gf1(float p) -> float { return p * 0.5; }
+function gp(P p) -> int { return p.fa + 1; }
+function ga(int[3] p) -> int { return p[0] + p[2]; }
+"""
+
+
+def _declares(stmt):
+    import re
+    return re.search(r"(^|[;{] *)(int|float|float4|float3|float3x3|P|int\[3\]) [a-z]", stmt) is not None
+
+
+def o_case(tname, scope, cname, stmt_t, res_t, rtype, chain, place):
+    T, e1, e2 = O_TYPES[tname]
+    names = ["v", "u", "z"][:chain]
+    decl_g, decl_l, params = "", "", O_PARAMS
+    for n in names:
+        if scope == "global":
+            decl_g += f"{T} {n};\n"
+        elif scope == "local":
+            decl_l += f"    {T} {n};\n"
+        else:
+            params += f", {T} {n}"
+    last = names[-1]
+
+    def pair(e):
+        s = f"{names[0]} = {e}; "
+        for p, q in zip(names, names[1:]):
+            s += f"{q} = {p}; "
+        return s
+
+    stmt = stmt_t.format(v=last, T=T)
+    res = res_t.format(v=last)
+    RT = rtype or T
+    zero = {"int": "0", "float": "0.0"}
+    body = pair(e1) + stmt
+    if place == "straight":
+        code = f"    {body}\n    return {res};\n"
+    elif place == "after-branch":
+        code = f"    int q0 = 0;\n    if (a > 0) {{ q0 = 1; }}\n    {body}\n    return {res};\n"
+    elif place == "in-block":
+        code = f"    {{ {pair(e1)} }}\n    {stmt}\n    return {res};\n"
+    elif place == "loop":
+        code = f"    for (int k = 0; k < 2; ++k) {{ {body} a = a + 1; }}\n    return {res};\n"
+        if _declares(stmt):
+            return None  # result declared inside the loop body would be out of scope
+    elif place == "arms":
+        if _declares(stmt):
+            return None
+        code = f"    if (a > 0) {{ {body} }} else {{ {pair(e2)}{stmt} }}\n    return {res};\n"
+    else:
+        raise ValueError(place)
+    src = O_HELPERS + decl_g + f"export function f({params}) -> {RT}\n{{\n{decl_l}{code}}}\n"
+    args = dict(O_ARGS)
+    globs = {}
+    init = {"int": 1, "float": 0.5, "float4": [0.5, 0.5, 0.5, 0.5], "float3": [0.5, 0.5, 0.5], "float3x3": [[0.5] * 3, [1.5] * 3, [2.5] * 3],
+            "P": {"fa": 1, "hb": 0.5}, "int[3]": [1, 2, 3]}
+    import copy
+    for n in names:
+        if scope == "global":
+            globs[n] = copy.deepcopy(init[tname])
+        elif scope == "arg":
+            args[n] = copy.deepcopy(init[tname])
+    inputs = []
+    for a in (2, 0, -1):
+        aa = copy.deepcopy(args)
+        aa["a"] = a
+        inputs.append((aa, copy.deepcopy(globs)))
+    return {"fam": "O", "desc": f"consumer={cname};type={tname};scope={scope};chain={chain};place={place}", "src": src,
+            "units": [{"funcs": [], "entry": "f", "inputs": inputs}]}
+
+
+@family("O")
+def fam_O(tier):
+    for cname, types_, stmt_t, res_t, rtype in O_CONSUMERS:
+        for tname in types_:
+            for scope in ("local", "arg", "global"):
+                for chain in (1, 2, 3):
+                    for place in ("straight", "after-branch", "in-block", "loop", "arms"):
+                        if tier == "quick" and chain == 3 and place not in ("straight", "loop"):
+                            continue
+                        c = o_case(tname, scope, cname, stmt_t, res_t, rtype, chain, place)
+                        if c is not None:
+                            yield c
+
+
+# constant-cast grid: literal of type {int,float} through every implicit-cast site
+@family("K")
+def fam_K(tier):
+    sites = [
+        ("bin-int-lit-float-var", "float", "x + 2"), ("bin-float-var-int-lit", "float", "2 + x"), ("bin-lit-lit", "float", "2 + 0.5"),
+        ("bin-int-zero", "float", "x * 0"), ("bin-neg-lit", "float", "x + -3"), ("cmp-lit", "int", "x > 1"), ("div-lits", "float", "7 / 2.0"),
+        ("int-div-lits", "int", "7 / 2"), ("call-int-lit-to-float", "float", "gf(2)"), ("call-float-lit-to-int", "int", "gi(2.0)"),
+        ("call-float-lit-to-int-frac", "int", "gi(2.5)"), ("ctor-int-lits", "float4", "float4(1, 2, 3, 4)"), ("ctor-mixed", "float4", "float4(1, 2.5, a, x)"),
+        ("ctor-int-from-float-lit", "int2", "int2(1.0, 2)"), ("index-float-lit", "int", "arr[1.0]"), ("index-int-lit", "int", "arr[1]"),
+        ("same-value-both-types", "float", "x * 1 + 1.0"), ("same-value-both-types-2", "float", "(a + 1) * 1.0"), ("init-float-with-int", "float", "fi"),
+        ("vec-scalar-int-lit", "float4", "w4 * 2"), ("vec-div-int-lit", "float4", "w4 / 2"), ("mat-scalar-int-lit", "float3x3", "m3 * 2"),
+        ("large-int-lit", "float", "x + 16777217"), ("hex-lit", "float", "x + 0x10"), ("oct-lit", "float", "x + 010"),
+    ]
+    for name, rt, expr in sites:
+        src = (f"function gf(float p) -> float {{ return p * 2.0; }}\nfunction gi(int p) -> int {{ return p * 2; }}\n"
+               f"export function f(int a, float x, float4 w4, float3x3 m3, int[3] arr) -> {rt}\n{{\n    float fi = 3;\n    return {expr};\n}}\n")
+        args = {"a": 2, "x": 1.5, "w4": [1.0, 2.0, 3.0, 4.0], "m3": [[1.0, 2.0, 3.0], [4.0, 5.0, 6.0], [7.0, 8.0, 9.5]], "arr": [5, 6, 7]}
+        yield {"fam": "K", "desc": f"site={name}", "src": src, "units": [{"funcs": [], "entry": "f", "inputs": [(args, {})]}]}
